@@ -18,7 +18,7 @@ from ..common.labels import IntegratorLabel
 from ..common.logger import resonaateLogError, resonaateLogWarning
 from ..physics.bodies import Earth
 from .dynamics_base import Dynamics, DynamicsErrorFlag
-from .integration_events.finite_thrust import ScheduledFiniteThrust
+from .integration_events.finite_thrust import FiniteThrustEnd, ScheduledFiniteThrust
 from .integration_events.scheduled_impulse import ScheduledImpulse
 
 # Type Checking Imports
@@ -98,11 +98,12 @@ class Celestial(Dynamics, metaclass=ABCMeta):
             #  Add the event queue to the list of events to be handled by the integration solver.
             events.extend(scheduled_events)
             for event in scheduled_events:
+                if not isinstance(event, ScheduledFiniteThrust):
+                    continue
+                # Integration also has to stop where the thrust ends
+                events.append(event.getEndEvent())
                 # Grab finite thrust events that should already be active
-                if (
-                    isinstance(event, ScheduledFiniteThrust)
-                    and event.start_time < initial_time < event.end_time
-                ):
+                if event.start_time < initial_time < event.end_time:
                     self.finite_thrust = event.getStateChangeCallback(initial_time)
 
         return events
@@ -127,7 +128,7 @@ class Celestial(Dynamics, metaclass=ABCMeta):
         for event_index, event in enumerate(events):
             if t_events[event_index].size > 0:
                 current_time = t_events[event_index][-1]
-                if isinstance(event, ScheduledFiniteThrust):
+                if isinstance(event, (ScheduledFiniteThrust, FiniteThrustEnd)):
                     self.finite_thrust = event.getStateChangeCallback(current_time)
                 else:
                     current_state += event.getStateChange(current_time, current_state[:, 0])[
